@@ -152,6 +152,9 @@ pub fn lying_insert_empty(mode: u8, have: usize) {
         FRESH0 = 0;
     }
     let claimed = nd::usize_();
+    // Lengths that neither fit a real allocation nor overflow the capacity computation make the
+    // allocator abort the process (not a panic, nothing to catch): outside the claim.
+    nd::assume(claimed <= 8 || claimed > usize::MAX / 2);
     let it = FaultyIter::new(items, claimed);
     let panicked = guarded(|| {
         if mode < 2 {
@@ -220,8 +223,9 @@ pub fn crash_sort(op: u8, c: usize, r: usize) {
         i += 1;
     }
     arm(&t, 4);
-    let row = nd::below(r);
-    let col = nd::below(c);
+    // concrete key line (see c16::sort_rejected for why)
+    let row = r - 1;
+    let col = c - 1;
     let panicked = guarded(|| match op {
         0 => t.sort_by_row(row, |a, b| {
             caller_code();
@@ -253,6 +257,25 @@ pub fn crash_sort(op: u8, c: usize, r: usize) {
     all_live_below(n);
     drop(t);
     all_dropped();
+    end_reached!();
+}
+
+/// A destructor that panics at its k-th call during clear(): the array must already be the valid
+/// empty array at that point (remaining elements may leak natively only if the unwinding stops
+/// dropping them; Vec keeps dropping the rest, which the native replay exercises).
+pub fn crash_drop_clear(c: usize, r: usize) {
+    let mut t = owned_tok(c, r, false);
+    arm(&t, c * r);
+    unsafe {
+        DROP_TICKS = true;
+    }
+    let panicked = guarded(|| t.clear());
+    unsafe {
+        DROP_TICKS = false;
+    }
+    observe_array(&t);
+    assert!(t.size() == (0, 0), "ORACLE: clear() interrupted by a panicking destructor did not leave (0,0)");
+    drop(t);
     end_reached!();
 }
 
